@@ -4,17 +4,24 @@ import Sentinel.Model.Throttle
 Driver for C10.
 
 Ops
-* `load <f:bits threshold> <statIntervalMs> <maxQueueingTimeMs>` — a fresh throttling rule / checker (once per case)
+* `load (<f:bits threshold> <statIntervalMs> <maxQueueingTimeMs>)* [other=<n>]` — the complete list of throttling rules of the
+  resource, in check order; also in the middle of a case (a reload: `Throttle.reload` with the code's rule equality).
+  `other=<n>` (a rule for another resource, so that an otherwise identical list is a real reload) is ignored here.
 * `clock <ns>`                                   — virtual time
-* `req <batch>`            `=> pass | wait <ns> | block`   (a `wait` also lets the clock advance: the slot sleeps)
-* `thread <tid> <clock-ns> req <batch>`          — declares worker `tid` (0,1,2,… in order) of the next `sched`
+* `req <batch>`   `=> (L | S<ns>)* (pass|block)` — one request through all rules (`Throttle.chain`): `L` per checker that reached
+  its timestamp (`th.load` hook), `S<ns>` per sleep, then the verdict; the clock advances by the sleeps
+* `thread <tid> <clock-ns> req <batch>`          — declares worker `tid` (0,1,2,… in order) of the next `sched` (exactly one rule in force)
 * `sched <tid|tick:<ns>> …` `=> [0:pass,1:wait:<ns>,2:block]` — runs the declared workers under the schedule
   (`go/internal/sched` semantics: skip finished, drain round-robin); a `clock` op must follow before the next `req`.
 
 Modes: `model` (the definitions of `Sentinel.Model.Throttle`; the float expression `⌈b/T·I⌉` instantiated with
 Lean `Float`), `oracle` (judges the implementation's trace: pass times are taken from the *trace*, the
 interval is the **exact** `⌈b·I/T⌉` of the property's wording; the model is only run to evaluate the known-finding
-classifiers `Cfg.rb` / `Cfg.stale` on the schedule).
+classifiers `Cfg.rb` / `Cfg.stale` on the schedule).  With several rules every rule in force is judged on its own: arrival at the rule
+= arrival + earlier sleeps, pass time = that + its own wait, reconstructed from the events and the rules' classes; limits, thresholds
+and intervals are those of the rule list *in force* (the last `load`), not those of whatever controller the code kept.  A rule that
+stays identical across a reload keeps its record; any other rule starts anew (no spacing claim against earlier traffic; a rejection must
+be justified against the latest pass time seen so far).
 -/
 namespace Sentinel.Drv.C10
 open Sentinel.Throttle Sentinel.Drv
@@ -34,8 +41,10 @@ def RP.maxQ (r : RP) : Int := ((r.mq * 1000000 : Nat) : Int)
 def ruleEq (old new : RP) : Bool :=
   old.statMs == new.statMs && Float.abs (old.T - new.T) < 0.00000001 && old.mq == new.mq
 
-/-- the oracle's notion of "the same rule stays in force": all three fields identical -/
-def sameRule (a b : RP) : Bool := a.tbits == b.tbits && a.statMs == b.statMs && a.mq == b.mq
+/-- the oracle's notion of "the same rule stays in force": all three fields identical.  (A `+Inf` threshold is never the
+    same for the code — `Inf − Inf` is NaN — so such a rule is rebuilt on every real reload; its interval is 0, nothing is
+    claimed across the reload for it.) -/
+def sameRule (a b : RP) : Bool := a.tbits == b.tbits && a.statMs == b.statMs && a.mq == b.mq && ruleEq a b
 
 /-- what the oracle remembers per rule in force: `prev` = latest pass time this rule assigned (spacing is claimed
     against it), `prevHi` = an upper bound of what its checker may legitimately remember (a rejection is justified
